@@ -56,7 +56,13 @@ def judge_doc(case):
         raw = encoded(text, case['enc'])      # declared ISO-8859-1 / UTF-16 bytes
     with open(path, 'wb') as f:
         f.write(raw)
-    fake = fakes3.FakeS3({'b': {'k/d.mos.xml': raw}})
+    s3key = case.get('s3key', 'k/d.mos.xml')
+    # decoys under the names a URL-decoding / normalising client would ask for instead
+    from urllib.parse import unquote, unquote_plus
+    objs = {k: b'<mos><messageID>1</messageID><roDelete><roID>decoy</roID></roDelete></mos>'
+            for k in {unquote(s3key), unquote_plus(s3key), s3key.replace(' ', '+'), s3key.strip()} if k != s3key}
+    objs[s3key] = raw
+    fake = fakes3.FakeS3({'b': objs})
     with warnings.catch_warnings():
         warnings.simplefilter('ignore')
         for name, fn in (('str', lambda: MosFile.from_string(text)),
@@ -64,7 +70,7 @@ def judge_doc(case):
                          ('file', lambda: MosFile.from_file(path)),
                          ('file:pathlib', lambda: MosFile.from_file(__import__('pathlib').Path(path))),
                          ('bytearray', lambda: MosFile.from_string(bytearray(raw))),
-                         ('s3', lambda: MosFile.from_s3('b', 'k/d.mos.xml'))):
+                         ('s3', lambda: MosFile.from_s3('b', s3key))):
             try:
                 with fake:
                     mo = fn()
@@ -86,7 +92,7 @@ def judge_doc(case):
                 entry.append(mt.ElementAction)
             for cls in entry:
                 for name, fn in (('str', lambda: cls.from_string(text)), ('bytes', lambda: cls.from_string(raw)),
-                                 ('file', lambda: cls.from_file(path)), ('s3', lambda: cls.from_s3('b', 'k/d.mos.xml'))):
+                                 ('file', lambda: cls.from_file(path)), ('s3', lambda: cls.from_s3('b', s3key))):
                     try:
                         with fake:
                             mo = fn()
@@ -102,7 +108,7 @@ def judge_doc(case):
         if not outs['str'][0].startswith('EXC'):
             for name, mk in (('string', lambda: MosReader.from_string(text)),
                              ('file', lambda: MosReader.from_file(path)),
-                             ('s3', lambda: MosReader.from_s3('b', 'k/d.mos.xml'))):
+                             ('s3', lambda: MosReader.from_s3('b', s3key))):
                 try:
                     with fake:
                         mr = mk()
@@ -150,7 +156,8 @@ def judge_collection(case):
         with open(p, 'wb') as f:
             f.write(doc.encode('utf-8'))
         paths.append(p)
-    objs = {f'pre/c{n:03d}.mos.xml': doc.encode('utf-8') for n, doc in enumerate(docs)}
+    style = case.get('key_style', 'pre/c{n:03d}.mos.xml')
+    objs = {style.format(n=n): doc.encode('utf-8') for n, doc in enumerate(docs)}
     objs['pre/readme.txt'] = b'not a mos file'
     objs['other/x.mos.xml'] = b'<mos/>'
     fake = fakes3.FakeS3({'b': objs}, page_size=case.get('page_size', 2))
@@ -208,6 +215,11 @@ def rejudge(case):
         shutil.rmtree(_work(), ignore_errors=True)
 
 
+# object keys are arbitrary strings: '+', '%XX', spaces and non-ASCII are literal
+S3_KEYS = ['k/20210304T223000+0000-roCreate.mos.xml', 'k/a%2Db.mos.xml', 'k/sp ace \u00e9.mos.xml',
+           'k/a+b %41.mos.xml', ' k/lead.mos.xml', 'k//double.mos.xml', 'k/q?x=1&y#z.mos.xml']
+KEY_STYLES = ['pre/c{n:03d}.mos.xml'] * 3 + ['pre/c{n:03d}+0000.mos.xml', 'pre/%2D c{n:03d}.mos.xml',
+                                             'pre/sub dir/\u00e9{n:03d}.mos.xml']
 KEY_PARTS = ['a', 'b', 'ro', '10', '9', 'é', 'Z', 'x.mos.xml.bak', '.mos.xml', 'y.mos.xmlz', 'deep/er']
 
 
@@ -221,7 +233,13 @@ def listings(draw):
         k += draw(st.sampled_from(['.mos.xml', '.mos.xml', '.mos.xml', '.xml', '', '.mos.xml.tmp', '.MOS.XML', '.custom']))
         keys.add(k)
     keys = sorted(keys)
-    return {'keys': keys, 'prefix': draw(st.sampled_from(['p/', 'p/sub/', 'q/', '', None, 'nomatch/', 'p', 'pé/'])),
+    prefix = draw(st.sampled_from(['p/', 'p/sub/', 'q/', '', None, 'nomatch/', 'p', 'pé/']))
+    if keys and draw(st.integers(0, 5)) == 0:
+        # the prefix is itself a complete key (picks that object and its longer siblings)
+        prefix = draw(st.sampled_from(keys))
+        if draw(st.booleans()):
+            keys = sorted(set(keys) | {prefix + '.rev2.mos.xml'})
+    return {'keys': keys, 'prefix': prefix,
             'suffix': draw(st.sampled_from([None, None, '.mos.xml', '.xml', '.custom', ''])),
             'page_size': draw(st.integers(1, max(1, len(keys) + 1)))}
 
@@ -242,7 +260,11 @@ def documents(draw):
         enc = draw(st.sampled_from(['latin1', 'utf16', 'utf16be']))
         if not encodable(text, enc):
             enc = None
-    return {'doc': decl + text, 'decl': bool(decl), 'enc': enc}
+    if draw(st.integers(0, 4)) == 0:
+        from vlib import build as B_
+        text = B_.cdataize(text)           # escaped text written as CDATA sections
+    s3key = draw(st.sampled_from(['k/d.mos.xml'] * 3 + S3_KEYS))
+    return {'doc': decl + text, 'decl': bool(decl), 'enc': enc, 's3key': s3key}
 
 
 def shard(args):
@@ -285,10 +307,12 @@ def shard(args):
         @st.composite
         def colls(draw):
             c = draw(colgen.collection(min_msgs=1, max_msgs=6, faults='some', rich=True))
-            return {'docs': c['docs'], 'page_size': draw(st.integers(1, 4))}
+            return {'docs': c['docs'], 'page_size': draw(st.integers(1, 4)),
+                    'key_style': draw(st.sampled_from(KEY_STYLES))}
 
         def three(case):
-            col.record(case, True, ['constructors-agree'], judge_collection(case), key=h64(*case['docs']))
+            col.record(case, True, ['constructors-agree'] + (['s3-keys-with-+-%-space'] if case['key_style'] != KEY_STYLES[0] else []),
+                       judge_collection(case), key=h64(*case['docs']))
         drive.run_given(colls(), three, max(10, n // 5), seed + 2)
     finally:
         shutil.rmtree(_work(), ignore_errors=True)
